@@ -348,7 +348,8 @@ def cia_case(case):
     else:
         dirs = {'db': fx.fresh_dir('c14_cia_db'), 'cia': fx.fresh_dir('c14_cia_hit')}
     files = {'db': W.write_pickle_cia(os.path.join(dirs['db'], stem + '.db'), tabd),
-             'cia': W.write_hitran_cia(os.path.join(dirs['cia'], stem + '.cia'), pair, blocks, order=case['order'])}
+             'cia': W.write_hitran_cia(os.path.join(dirs['cia'], stem + '.cia'), pair, blocks, order=case['order'],
+                                       third_column=bool(case.get('col3')))}
     objs = {}
     for fmt in ('db', 'cia'):
         try:
@@ -894,6 +895,10 @@ def explore(ctx):
     for nW, mode, via, (fn, tag) in P([4, 6000] + ([20000] if thorough else []), ['linear', 'exp'], ['cache', 'class'], FN_PICKLE[:2]):
         cases.append({'container': 'pickle', 'shape': [3, 3], 'nW': nW, 'pattern': 'generic', 'fname': fn, 'tag': tag,
                       'mode': mode, 'via': via, 'wn': 'none', 'py2': 1})
+    # ... an HDF5 table of more than 8 MiB (three pressures x three temperatures x 140000 points)
+    for mem, via in P([True, False], ['cache', 'class']):
+        cases.append({'container': 'h5', 'shape': [3, 3], 'nW': 140000, 'pattern': 'generic', 'fname': FN_H5[0][0],
+                      'tag': FN_H5[0][1], 'unit': 'bar', 'style': 'str', 'mem': mem, 'mode': 'linear', 'via': via, 'wn': 'none'})
     # HDF5
     h5shapes = shapes if thorough else shapes[:2]
     for sh, unit, st, mem, (fn, tag), mode, via, wq in P(h5shapes, units, styles, [True, False], FN_H5,
@@ -951,6 +956,8 @@ def explore(ctx):
         ccases.append(c)
         if nb > 1 and neg == 0 and fn == FN_CIA[0] and layout == 'separate':
             ccases.append(dict(c, touch=1))
+        if neg == 0 and fn == FN_CIA[0] and layout == 'separate' and order == 'block':
+            ccases.append(dict(c, col3=1))       # data lines carrying the optional third (uncertainty) column
     ctx.bounds.update(cia_cases=len(ccases))
     t0 = time.time()
     ctx.run_cases('cia_case', ccases, phase='cia')
